@@ -111,3 +111,9 @@ PROPS["C07"] = dict(level="exploration",
                 quick=(10, 600000), thorough=(120, 30000000))],
     assumptions=_DS_ASSUME + ["virtual time: std::chrono::steady_clock inside libunifex is the deterministic scheduler's clock",
                               "io_epoll_context / io_uring_context timers (real kernel time) are exercised by the C14 check's units"])
+
+PROPS["C13"] = dict(level="exploration",
+    units=[Unit("c13_streams", "harness/c13_streams.cpp", cfg="p17", max_size=90,
+                quick=(30, 600000), thorough=(480, 30000000))],
+    assumptions=["sequential event mode: one thread, the driver chooses the order of deferred completions, trigger firing and stop requests (callback granularity); the atomics inside take_until / stop_immediately / type_erased_stream are exercised only along those orders",
+                 "the exact-sequence oracle applies when neither a stop request nor a firing take_until trigger can cut the sequence; otherwise prefix + fold-consistency + source-side invariants"])
